@@ -7,6 +7,11 @@ package sched
 
 var core = []string{"C01", "C02", "C03", "C06", "C07"}
 
+// coreLocks: the scenario also serves the scheduler part of C14 (no call
+// returns with bq.lock held, no call blocks on a lock for good): the ones
+// that reach the error returns and the drop-the-lock-and-retry loops.
+var coreLocks = []string{"C01", "C02", "C03", "C06", "C07", "C14"}
+
 func scenarioConfigs() []*config {
 	pre0 := []uint32{0}
 	pre12 := []uint32{1, 2}
@@ -53,7 +58,7 @@ func scenarioConfigs() []*config {
 			Workers: []workerSpec{{Name: "w1", MaxCalls: 3, Busy: []string{"ok", "exec", "err"}}},
 		},
 		{
-			Name: "S4-kill-vs-completion-vs-reattach", Props: core,
+			Name: "S4-kill-vs-completion-vs-reattach", Props: coreLocks,
 			Doc:         "operator kill vs. worker completion vs. a client that is cancelled and re-attaches with WaitExecution",
 			Predeclared: pre0, MaxTicks: 3,
 			Clients:   []clientSpec{{Name: "c1", Calls: []string{"exec A i1", "wait c1.0"}, Cancels: 1}},
@@ -97,7 +102,7 @@ func scenarioConfigs() []*config {
 			},
 		},
 		{
-			Name: "S7-drain-terminate", Props: []string{"C01", "C02", "C06"},
+			Name: "S7-drain-terminate", Props: []string{"C01", "C02", "C06", "C14"},
 			Doc:         "a parked worker is drained, undrained and terminated while a task arrives",
 			Predeclared: pre0, MaxTicks: 3, IdleSync: 3, Bounds: b1, Shards: 4,
 			Workers:   []workerSpec{{Name: "w1", MaxCalls: 3, Busy: []string{"ok", "exec"}}},
@@ -105,7 +110,7 @@ func scenarioConfigs() []*config {
 			Operators: []operatorSpec{{Name: "op", Stage: 1, Calls: []string{"drain+ w1", "drain- w1", "term w1", "list"}, Cancels: 1}},
 		},
 		{
-			Name: "S9-queue-removal", Props: core,
+			Name: "S9-queue-removal", Props: coreLocks,
 			Doc:      "worker-created queue whose only worker never returns; queued task, late second client after the queue is gone",
 			MaxTicks: 10, Update: 2,
 			Workers: []workerSpec{{Name: "w1", MaxCalls: 1, Idle: []string{"pidle"}}},
@@ -205,7 +210,7 @@ func scenarioConfigs() []*config {
 			Clients: []clientSpec{{Name: "c1", Stage: 1, Calls: []string{"exec A i1"}}},
 		},
 		{
-			Name: "S17-kill-vs-garbage-collection", Props: []string{"C01", "C02", "C03", "C06", "C07", "C14"},
+			Name: "S17-kill-vs-garbage-collection", Props: coreLocks,
 			Bounds: tiny, Shards: 1,
 			Doc:         "operator KillOperations(by name) || the operation's only client leaves || no-waiter timeout 1: the operation may be garbage collected while KillOperations sits in its authorizer between its two critical sections; a second client then re-attaches by name and the operator polls",
 			Predeclared: pre0, MaxTicks: 3, NoWaiter: 1,
